@@ -27,8 +27,8 @@ SCENARIOS = {
         "counts": ["C01"],
     },
     "C04": {
-        "modules": ["C04", "C04Build", "Unconditional", "Reachable"],
-        "theorems": ["C04_selfLookup_reachable_given_lengths", "C04_selfLookup_reachable_bq", "C04_stored_length_reachable", "C04_routed_all_histories", "C04_routed", "C04_checker", "C04_selfLookup", "C04_selfLookup_symm", "C04_selfLookup_by_item", "C04_routed_meaning", "C04_readerFirst_spec",
+        "modules": ["C04", "C04Build", "C04Split", "Unconditional", "Reachable"],
+        "theorems": ["C04_createSplit_length", "C04_createSplit_length_bq", "C04_normal_lengths_reachable", "C04_selfLookup_reachable_split", "C04_selfLookup_reachable_given_lengths", "C04_selfLookup_reachable_bq", "C04_stored_length_reachable", "C04_routed_all_histories", "C04_routed", "C04_checker", "C04_selfLookup", "C04_selfLookup_symm", "C04_selfLookup_by_item", "C04_routed_meaning", "C04_readerFirst_spec",
                      "C04_side_eq_readerFirst"],
         "quick": [hist("c04", 50, extra=T1), hist("c04", 8, extra=CH)],
         "thorough": [hist("c04", 1200, "thorough", extra=T1), hist("c04", 300, "thorough"), hist("c04", 80, "thorough", extra=CH)],
@@ -92,8 +92,8 @@ SCENARIOS = {
         "assumptions": ["durability of a returned commit is LMDB's; a process kill (SIGKILL) stands for a crash, power loss is out of reach"],
     },
     "C10": {
-        "modules": ["C10", "C10Reach", "Unconditional"],
-        "theorems": ["C10_transparent_ok_all", "C10_transparent_err_all", "C10_roots_present", "C10_transparent_ok", "C10_transparent_err", "C10_cancel_iff", "C10_cancel_late", "C10_abort", "C10_retry",
+        "modules": ["C10", "C10Reach", "C10InPlace", "Unconditional"],
+        "theorems": ["C10_inplace_build", "C10_inplace_build_ok", "C10_inplace_build_cancelled", "C10_inplace_build_eq", "C10_inplace_delete", "C10_inplace_insert", "C10_inplace_make", "C10_transparent_ok_all", "C10_transparent_err_all", "C10_roots_present", "C10_transparent_ok", "C10_transparent_err", "C10_cancel_iff", "C10_cancel_late", "C10_abort", "C10_retry",
                      "C10_cancel_abort_retry"],
         "quick": [{"name": "faults", "args": ["faults", "--seed", "{seed}"]}, hist("c10", 30, extra=T1)],
         "thorough": [{"name": "faults", "args": ["faults", "--seed", "{seed}", "--tier", "thorough"], "timeout": 3000},
@@ -142,8 +142,9 @@ SCENARIOS = {
         "modules": ["C14", "Unconditional", "Reachable"],
         "theorems": ["C14_any_memory_forest", "C14_any_memory", "C14_insert_terminates", "C14_makeT_fuel", "C14_resplit_makes_node", "C14_livelock_before_fix",
                      "C14_build_fuel_forest", "C14_reify_total", "C14_deleteTree_total"],
-        "quick": [hist("c14", 60, extra=T1, timeout=900)],
-        "thorough": [hist("c14", 600, "thorough", extra=T1, timeout=3400), hist("c14", 100, "thorough", timeout=3400)],
+        "quick": [hist("c14", 60, extra=T1, timeout=900), hist("c14inc", 12, extra=T1, timeout=900)],
+        "thorough": [hist("c14", 600, "thorough", extra=T1, timeout=3400), hist("c14", 100, "thorough", timeout=3400),
+                     hist("c14inc", 120, "thorough", extra=T1, timeout=3400)],
         "counts": ["C14", "C01", "C02"],
         "assumptions": ["termination of the re-split loop is probabilistic in the real code (a random split may keep all items on one side); "
                         "proved: progress when the batch exceeds the capacity, the livelock fixed point otherwise; observed: poll-limit hang detection"],
@@ -170,8 +171,8 @@ SCENARIOS = {
         "counts": ["C18", "C01", "C02"],
     },
     "C20": {
-        "modules": ["C20", "Unconditional", "Reachable"],
-        "theorems": ["C20_degenerate_forest", "C20_side_total", "C20_sideSplit_total", "C20_search_total", "C20_search_wellformed", "C20_order_total",
+        "modules": ["C20", "C04Split", "Unconditional", "Reachable"],
+        "theorems": ["C20_createSplit_total", "C20_createSplit_bounded", "C20_degenerate_forest", "C20_side_total", "C20_sideSplit_total", "C20_search_total", "C20_search_wellformed", "C20_order_total",
                      "C20_readback_any_bits", "C20_empty_side_random", "C20_build_fuel"],
         "quick": [hist("c20", 84, extra=T1, timeout=1500), hist("c20", 7, extra=CH, timeout=1500)],
         "thorough": [hist("c20", 420, "thorough", extra=T1, timeout=3400), hist("c20", 84, "thorough", timeout=3400),
